@@ -156,6 +156,9 @@ def expect_decimal(decl, fmt, value):
         elif ths and ch == ths:
             if seen_dec:
                 return (REJECT, "thousands separator after the decimal separator")
+        elif ch == ".":
+            # a dot that is neither the format's decimal nor its thousands separator
+            return (REJECT, "dot although the decimal separator is %r" % dec)
         else:
             translated += ch
     if ths and ths in value:
